@@ -44,6 +44,14 @@ import (
 // equal the snapshot taken after EVERY later step; (2) every modifying request must return
 // the shard's mode error; (3) objects that were plainly available before the switch stay
 // readable with identical bytes, never-stored addresses stay unreadable.
+//
+// The read-only period is entered in every way a shard gets there: (a) SetMode at run time,
+// (b) start-up of a stopped shard with the mode given in its configuration (shard.WithMode +
+// Open + Init, what `mode: read-only` of the node config does), (c) a run-time entry followed
+// by an attempt to return to read-write that an injected component failure aborts (the shard
+// keeps reporting the read-only mode).  Before the period starts the GC backlog is staged in
+// read-write: untouched, one pass done, a removed container whose objects are already gone
+// while its record is still pending, or fully drained.
 // ---------------------------------------------------------------------------------------
 
 type vf14Epoch struct{ v atomic.Uint64 }
@@ -84,6 +92,7 @@ type vf14Env struct {
 	dir     string
 	sh      *Shard
 	fst     *fstree.FSTree
+	depth   uint64
 	wc      bool
 	epoch   *vf14Epoch
 	pay     *vf14Payments
@@ -92,12 +101,20 @@ type vf14Env struct {
 
 func vf14New(dir string, rng *rand.Rand, withWC bool, realTimer bool) (*vf14Env, error) {
 	env := &vf14Env{dir: dir, wc: withWC, epoch: &vf14Epoch{}, pay: &vf14Payments{unpaid: map[cid.ID]int64{}}}
-	env.fst = fstree.New(fstree.WithPath(filepath.Join(dir, "blob")), fstree.WithDepth(uint64(1+rng.IntN(2))), fstree.WithNoSync(true))
+	env.depth = uint64(1 + rng.IntN(2))
+	return env, env.open(realTimer)
+}
+
+// open builds a Shard instance over the case directory and starts it the way the node does
+// (New + Open + Init); extra carries the configured mode of a restart.
+func (env *vf14Env) open(realTimer bool, extra ...Option) error {
+	dir, withWC := env.dir, env.wc
+	env.fst = fstree.New(fstree.WithPath(filepath.Join(dir, "blob")), fstree.WithDepth(env.depth), fstree.WithNoSync(true))
 	gcInt := time.Hour
 	if realTimer {
 		gcInt = 3 * time.Millisecond
 	}
-	env.sh = New(
+	env.sh = New(append([]Option{
 		WithLogger(zap.NewNop()),
 		WithBlobstor(env.fst),
 		WithMetaBaseOptions(
@@ -117,15 +134,15 @@ func vf14New(dir string, rng *rand.Rand, withWC bool, realTimer bool) (*vf14Env,
 		WithRemoverBatchSize(3),
 		WithContainerPayments(env.pay),
 		WithExpiredObjectsCallback(func([]oid.Address) { env.expired.Add(1) }),
-	)
+	}, extra...)...)
 	if err := env.sh.Open(); err != nil {
-		return nil, err
+		return err
 	}
 	if err := env.sh.Init(); err != nil {
 		_ = env.sh.Close()
-		return nil, err
+		return err
 	}
-	return env, nil
+	return nil
 }
 
 // ---- persisted-state snapshot ----
@@ -134,6 +151,7 @@ type vf14Snap struct {
 	files map[string]string // relative path -> "size:sha256"
 	meta  map[string]string // "bucket/path" -> hash over its sorted key/value pairs
 	nKV   int
+	own   bool // metabase read through the shard's own (writable) handle
 }
 
 func vf14WalkFiles(root, prefix string, out map[string]string) error {
@@ -193,54 +211,93 @@ func (env *vf14Env) snapshot() (*vf14Snap, error) {
 	for _, n := range names {
 		s.files["meta/"+n.Name()] = "present"
 	}
-	db, err := bbolt.Open(filepath.Join(env.dir, "meta", "meta.db"), 0o600, &bbolt.Options{ReadOnly: true, Timeout: 20 * time.Second})
+	dump := func(tx *bbolt.Tx) error {
+		return tx.ForEach(func(name []byte, b *bbolt.Bucket) error {
+			return vf14DumpBucket(b, hex.EncodeToString(name), s.meta, &s.nKV)
+		})
+	}
+	// A metabase the shard holds opened WRITABLE (start-up with a configured read-only mode,
+	// aborted return to read-write) keeps an exclusive file lock: its committed content is
+	// read in a read transaction of that very handle.  Otherwise (handle opened read-only or
+	// closed) an independent read-only handle is used.
+	if writable, open, verr := env.sh.metaBase.Verif14View(dump); open && writable && verr == nil {
+		s.own = true
+		return s, nil
+	}
+	s.meta, s.nKV = map[string]string{}, 0
+	db, err := bbolt.Open(filepath.Join(env.dir, "meta", "meta.db"), 0o600, &bbolt.Options{ReadOnly: true, Timeout: 60 * time.Second})
 	if err != nil {
 		return nil, fmt.Errorf("independent read-only open of the metabase: %w", err)
 	}
 	defer db.Close()
-	err = db.View(func(tx *bbolt.Tx) error {
-		return tx.ForEach(func(name []byte, b *bbolt.Bucket) error {
-			return vf14DumpBucket(b, hex.EncodeToString(name), s.meta, &s.nKV)
-		})
-	})
-	return s, err
+	return s, db.View(dump)
 }
 
-func vf14Diff(a, b *vf14Snap) (component, detail string) {
-	diffMap := func(x, y map[string]string) string {
+// vf14Change is one changed component of the persisted state.
+type vf14Change struct {
+	comp   string // blobstor | write-cache | metabase-dir | metabase
+	shape  string // what happened to its entries: removed/added/modified (joined by '+')
+	detail string
+}
+
+// vf14Diff compares two snapshots component by component (a change of one component never
+// hides a change of another one).
+func vf14Diff(a, b *vf14Snap) []vf14Change {
+	diffMap := func(x, y map[string]string, prefix, unit string) (string, string) {
 		var d []string
+		kinds := map[string]bool{}
 		for k, v := range x {
+			if len(k) < len(prefix) || k[:len(prefix)] != prefix {
+				continue
+			}
 			if w, ok := y[k]; !ok {
 				d = append(d, "-"+k)
+				kinds[unit+"-removed"] = true
 			} else if w != v {
 				d = append(d, "~"+k)
+				kinds[unit+"-modified"] = true
 			}
 		}
 		for k := range y {
+			if len(k) < len(prefix) || k[:len(prefix)] != prefix {
+				continue
+			}
 			if _, ok := x[k]; !ok {
 				d = append(d, "+"+k)
+				kinds[unit+"-added"] = true
 			}
+		}
+		if len(d) == 0 {
+			return "", ""
 		}
 		sort.Strings(d)
 		if len(d) > 6 {
 			d = append(d[:6], fmt.Sprintf("...(%d more)", len(d)-6))
 		}
-		return fmt.Sprint(d)
-	}
-	if d := diffMap(a.files, b.files); d != "[]" {
-		comp := "files"
-		switch {
-		case bytes.Contains([]byte(d), []byte("blob/")) && !bytes.Contains([]byte(d), []byte("wcache/")):
-			comp = "blobstor"
-		case bytes.Contains([]byte(d), []byte("wcache/")) && !bytes.Contains([]byte(d), []byte("blob/")):
-			comp = "write-cache"
+		var ks []string
+		for k := range kinds {
+			ks = append(ks, k)
 		}
-		return comp, d
+		sort.Strings(ks)
+		shape := ""
+		for i, k := range ks {
+			if i > 0 {
+				shape += "+"
+			}
+			shape += k
+		}
+		return shape, fmt.Sprint(d)
 	}
-	if d := diffMap(a.meta, b.meta); d != "[]" {
-		return "metabase", d
+	var out []vf14Change
+	for _, c := range [][2]string{{"blob/", "blobstor"}, {"wcache/", "write-cache"}, {"meta/", "metabase-dir"}} {
+		if sh, d := diffMap(a.files, b.files, c[0], "files"); sh != "" {
+			out = append(out, vf14Change{c[1], sh, d})
+		}
 	}
-	return "", ""
+	if sh, d := diffMap(a.meta, b.meta, "", "buckets"); sh != "" {
+		out = append(out, vf14Change{"metabase", sh, d})
+	}
+	return out
 }
 
 // ---- universe ----
